@@ -451,6 +451,17 @@ def _consumer_loops(p):
         fparam = _file_param(fe)
         loops = _loop_over_file(fe, fparam)
         if not loops:
+            # moved into a function or class that today's tree does not have (a tokenizer class, a module-level generator that was
+            # not expanded): the per-line clauses are not decided across that structure
+            from sa.normalize import _reference
+            ref_ = _reference()
+            moved = [f_.qual for q_, f_ in sorted(p.functions.items()) if q_ not in ref_ and f_.module.name == fe.module.name
+                     and not isinstance(f_.node, ast.Lambda) and any(
+                         isinstance(x, ast.For) and any(isinstance(n_, ast.Name) and n_.id in f_.params() for n_ in ast.walk(x.iter))
+                         for x in walk_shallow(f_.node))]
+            if moved:
+                raise ShapeNotRecognised("the reference engine's loop over the lines of the section now lives in %s: the per-line clauses "
+                                         "are not decided across that structure" % ", ".join(moved))
             raise AnalysisError("no loop over the file object in the reference engine")
         loop, counter, linevar, direct, start = loops[0]
         lp = fe.params()[1]
@@ -640,7 +651,7 @@ def rule_end_test(ctx):
                     if (isinstance(sub, ast.Assign) and any(isinstance(t, ast.Name) and t.id == cv for t in sub.targets)
                             and not in_block(sub, loop.body) and ordn(sub) < ordn(loop)):
                         init = sub.value
-                li = _lin(init, lambda n: None) if init is not None else None
+                li = _lin(init, lambda n: defs.get(n)) if init is not None else None
                 want = [{f: 1} for f in firsts] + [{f: 1, 1: 0} for f in firsts]
                 if li is None or {k: v for k, v in li.items() if not (k == 1 and v == 0)} not in [{f: 1} for f in firsts]:
                     problems.append("the line counter starts at %s, expected the index of the title line" % (
@@ -1227,8 +1238,27 @@ def rule_route(ctx):
     problems = []
     derived_r = _title_derived(fr, tv, known=("provisional_version",), modules=True)
     derived_p = _title_derived(sp_init, "title", known=("version",), modules=True)
+    def _opaque(fi_, tvar_, dd_):
+        """locals with several definitions of which one depends on the title (`regular = None` / `regular = TABLE.get(title[:2])`)"""
+        out_ = set()
+        titleish = {tvar_} | set(dd_)
+        ndefs = {}
+        for a_ in walk_shallow(fi_.node):
+            if isinstance(a_, ast.Assign):
+                for t_ in a_.targets:
+                    for nm_ in target_names(t_):
+                        ndefs[nm_] = ndefs.get(nm_, 0) + 1
+        for a_ in walk_shallow(fi_.node):
+            if isinstance(a_, ast.Assign):
+                for t_ in a_.targets:
+                    for nm_ in target_names(t_):
+                        if ndefs.get(nm_, 0) > 1 and nm_ not in dd_ and nm_ != tvar_ and any(
+                                isinstance(x, ast.Name) and x.id in titleish for x in ast.walk(a_.value)):
+                            out_.add(nm_)
+        return out_
     n_eval = 0
     unfolded = []
+    opaque_r, opaque_p = _opaque(fr, tv, derived_r), _opaque(sp_init, "title", derived_p)
     menv_r, menv_p = module_env(p, fr.module.name), module_env(p, sp_init.module.name)
     probes = []
     for L in LETTERS[:4] + "TX":
@@ -1253,6 +1283,10 @@ def rule_route(ctx):
                         free = {n.id for n in ast.walk(t) if isinstance(n, ast.Name)}
                         dd = derived_r if tvar == tv else derived_p
                         relevant = {tvar} | {k for k, v_ in dd.items() if _mentions(v_, tvar, dd)} | set(extra)
+                        if free & (opaque_r if tvar == tv else opaque_p):
+                            # the test reads a local that depends on the title but has no single definition: not foldable here
+                            ok_ = None
+                            break
                         if not (free & relevant):
                             if _assume(t, pol) is not None:
                                 # a version / LAS-3 test written over names the table does not know: approximate, and remember it
@@ -1659,8 +1693,24 @@ def rule_section_type(ctx):
             elif isinstance(st, ast.Return):
                 chain.append((None, st.value))
     collect([x for x in fi.node.body])
-    if not chain or chain[-1][0] is not None:
-        raise AnalysisError("determine_section_type is not an if/elif/return chain")
+    pure_chain = not any(isinstance(x, (ast.For, ast.While, ast.Try, ast.With)) for x in walk_shallow(fi.node))
+    if not pure_chain or not chain or chain[-1][0] is not None:
+        # not an if/elif chain (a rule table scanned in a loop ...): evaluate the function itself on the probe titles with the
+        # interpreter for pure helpers
+        from sa.consts import _interpret, FuncRef
+        problems = []
+        try:
+            for title, want in TYPE_PROBES:
+                got = _interpret(FuncRef(fi.node, module_env(p, fi.module.name)), [title], {})
+                if got != want:
+                    problems.append("a section titled %r is classified %r (documented: %r)" % (title, got, want))
+        except NotConst as e:
+            raise ShapeNotRecognised("determine_section_type is neither an if/elif/return chain nor evaluable as a pure function (%s)" % e)
+        ctx.check(not problems, "SEC.TYPE", fi.qual + "#truth-table", fi, fi.node,
+                  "section kind by title agrees with the documented classification for %d probe titles (function evaluated on each)" % len(TYPE_PROBES),
+                  "; ".join(problems[:4]) + (": the lines of such a section are attributed to the wrong kind of section or dropped" if problems else ""))
+        ctx.floor("SEC.TYPE", 1)
+        return
     problems = []
     for title, want in TYPE_PROBES:
         got = None
